@@ -159,6 +159,76 @@ static void run_case(const hist_t* h, bool io_modes) {
     free(img);
 }
 
+
+/* ---- long single-column tables: sizes at the boundaries of internal representations ---------------------------------
+ * (RLE run headers of 1/2/3 bytes: runs of 63/64, 8191/8192; level blocks and pages beyond 64 KiB; match distances of
+ * 64 KiB; literal runs of 15+255k bytes; > 64 retired pages in one read; skip counts beyond the 1024-value scratch) */
+typedef struct { int N, kind, maskkind, codec, batching, page_sel, pattern; } big_t;
+static const char* big_desc(const big_t* b) { static char d[160]; snprintf(d, sizeof d, "big:col=%s;n=%d;mask=%d;codec=%d;batching=%d;ps=%d;vals=%d", TBL_KINDS[b->kind].name, b->N, b->maskkind, b->codec, b->batching, b->page_sel, b->pattern); return d; }
+static bool big_null(const big_t* b, int r) {
+    switch (b->maskkind) { case 0: return false; case 1: return r == 0; case 2: return r == b->N / 2; case 3: return r == b->N - 1; case 4: return (r & 1) != 0; case 5: return ((r >> 13) & 1) != 0;        /* blocks of 8192 */
+        case 6: return ((uint32_t)r * 2654435761u >> 29) < 3; default: return r >= 5 && r < b->N - 5; }                                                                                                   /* 6: irregular (3/8 null), 7: all null but the ends */
+}
+static void big_value(const big_t* b, int r, uint8_t* out, ref_str* s, char* sbuf) {
+    int pt = TBL_KINDS[b->kind].ptype; uint64_t x;
+    switch (b->pattern) { case 0: x = (uint64_t)r * 0x9E3779B97F4A7C15ull; x ^= x >> 29; break;                         /* incompressible */
+        case 1: { int q = r % 8192; x = (uint64_t)q * 0x9E3779B97F4A7C15ull; x ^= x >> 29; break; }                      /* repeats after 8192 values: a match distance of exactly 64 KiB for 8-byte values */
+        case 2: { int q = r < 195 ? r : (r - 195) % 64; x = (uint64_t)q * 0xD1B54A32D192ED03ull; x ^= x >> 31; break; }  /* 195 literals (780 bytes of int32) then repeats: literal run 15+255*3 */
+        default: x = (uint64_t)(r / 1000); break; }                                                                      /* long constant stretches */
+    switch (pt) { case PT_BOOLEAN: out[0] = (uint8_t)(x & 1); break; case PT_INT32: case PT_FLOAT: { uint32_t v = (uint32_t)x; if (pt == PT_FLOAT && (v & 0x7f800000u) == 0x7f800000u) v &= 0xff7fffffu; memcpy(out, &v, 4); break; }
+        case PT_INT64: case PT_DOUBLE: { if (pt == PT_DOUBLE && (x & 0x7ff0000000000000ull) == 0x7ff0000000000000ull) x &= 0xffefffffffffffffull; memcpy(out, &x, 8); break; }
+        case PT_FLBA: for (int i = 0; i < TBL_KINDS[b->kind].tlen; i++) out[i] = (uint8_t)(x >> (8 * (i & 7))); break;
+        default: { int L = b->pattern == 3 ? 3 : 5 + (int)(x % 11); snprintf(sbuf, 32, "%0*llx", L, (unsigned long long)(x & 0xfffffffffffull)); s->p = (const uint8_t*)sbuf; s->n = (uint32_t)strlen(sbuf); break; } }
+}
+static void big_case(const big_t* b) {
+    const tcol_t* kc = &TBL_KINDS[b->kind]; int w = tbl_width(kc), N = b->N; carquet_error_t err = CARQUET_ERROR_INIT;
+    /* expected content */
+    int16_t* def = malloc(sizeof(int16_t) * (size_t)N + 2); uint8_t* fixed = malloc((size_t)(w ? w : 1) * (size_t)N + 16); ref_str* strs = malloc(sizeof(ref_str) * (size_t)N + 16); char* pool = malloc(32 * (size_t)N + 32); int64_t nv = 0;
+    for (int r = 0; r < N; r++) { bool nul = kc->opt && big_null(b, r); def[r] = nul ? 0 : 1; if (nul) continue; big_value(b, r, fixed + (size_t)nv * (size_t)w, &strs[nv], pool + 32 * (size_t)nv); nv++; }
+    /* write */
+    carquet_schema_t* sch = carquet_schema_create(&err); (void)carquet_schema_add_column(sch, "v", (carquet_physical_type_t)kc->ptype, NULL, kc->opt ? CARQUET_REPETITION_OPTIONAL : CARQUET_REPETITION_REQUIRED, kc->tlen);
+    carquet_writer_options_t wo; carquet_writer_options_init(&wo); wo.compression = (carquet_compression_t)b->codec; if (b->page_sel == 0) wo.page_size = 1; else if (b->page_sel == 1) wo.page_size = 96;
+    char* mem = NULL; size_t mlen = 0; FILE* mf = open_memstream(&mem, &mlen); carquet_writer_t* wr = carquet_writer_create_file(mf, sch, &wo, &err);
+    if (!wr) { mc_count("big.writer-create-refused", 1); fclose(mf); free(mem); goto out; }
+    { int step = b->batching == 0 ? N : b->batching == 1 ? 1000 : 6; carquet_status_t st = CARQUET_OK; int64_t vpos = 0;
+      for (int r0 = 0; r0 < N && st == CARQUET_OK; r0 += step) { int n = N - r0 < step ? N - r0 : step; int64_t nn = 0; for (int r = r0; r < r0 + n; r++) if (def[r]) nn++;
+          const void* vals; carquet_byte_array_t* ba = NULL; if (kc->ptype == PT_BYTE_ARRAY) { ba = malloc(sizeof(*ba) * (size_t)(nn + 1)); for (int64_t k = 0; k < nn; k++) { ba[k].data = (uint8_t*)strs[vpos + k].p; ba[k].length = (int32_t)strs[vpos + k].n; } vals = ba; } else vals = fixed + (size_t)vpos * (size_t)w;
+          st = carquet_writer_write_batch(wr, 0, vals, n, kc->opt ? def + r0 : NULL, NULL); free(ba); vpos += nn; }
+      if (st != CARQUET_OK) { mc_count("big.write-refused", 1); carquet_writer_abort(wr); fclose(mf); free(mem); goto out; }
+      if ((st = carquet_writer_close(wr)) != CARQUET_OK) { mc_count("big.close-refused", 1); fclose(mf); free(mem); goto out; } }
+    fclose(mf);
+    uint8_t* img = mc_exact(mem, mlen); free(mem); mc_outcome("written");
+    if (C05) {   /* the independent reader recovers the table */
+        ref_file rf; if (ref_pq_read(&RA, img, mlen, &rf, REF_RD_CHECK_TOTALS)) { char key[96]; char cls[32]; snprintf(cls, sizeof cls, "%.30s", rf.err); char* c = strchr(cls, ':'); if (c) *c = 0; snprintf(key, sizeof key, "big.ref-reader.%s", cls); mc_fail(key, "%s: %s", big_desc(b), rf.err); }
+        else { const ref_coldata* c = &rf.cols[0]; bool ok = rf.meta.num_rows == N && c->nlevels == N && c->nvalues == nv; for (int r = 0; ok && r < N && kc->opt; r++) ok = c->def[r] == def[r];
+            if (ok) { if (kc->ptype == PT_BYTE_ARRAY) { for (int64_t k = 0; ok && k < nv; k++) ok = c->strs[k].n == strs[k].n && !memcmp(c->strs[k].p, strs[k].p, strs[k].n); } else ok = !memcmp(c->fixed, fixed, (size_t)nv * (size_t)w); }
+            if (!ok) mc_fail("big.ref-reader.table-differs", "%s: the independent reader recovers a different table (rows %lld levels %lld values %lld, written %d/%lld)", big_desc(b), (long long)rf.meta.num_rows, (long long)c->nlevels, (long long)c->nvalues, N, (long long)nv); }
+        ref_arena_free(&RA);
+    } else {     /* carquet reads it back: one read for everything; skip + read; chunks of 1000; three I/O modes */
+        char path[300]; snprintf(path, sizeof path, "%s/rtbig_%d.parquet", g_dir, (int)getpid()); FILE* pf = fopen(path, "wb"); if (pf) { fwrite(img, 1, mlen, pf); fclose(pf); }
+        for (int mode = 0; mode < 3; mode++) for (int hist = 0; hist < 3; hist++) {
+            carquet_reader_options_t ro; carquet_reader_options_init(&ro); ro.use_mmap = mode == 2; carquet_reader_t* rd = mode == 0 ? carquet_reader_open_buffer(img, mlen, &ro, &err) : carquet_reader_open(path, &ro, &err);
+            if (!rd) { mc_fail("big.reopen-failed", "%s mode %d: code %d %s", big_desc(b), mode, err.code, err.message); continue; }
+            carquet_column_reader_t* cr = carquet_reader_get_column(rd, 0, 0, &err); if (!cr) { mc_fail("big.column-open-failed", "%s: code %d", big_desc(b), err.code); carquet_reader_close(rd); continue; }
+            size_t vs = kc->ptype == PT_BYTE_ARRAY ? sizeof(carquet_byte_array_t) : (size_t)w; uint8_t* vb = mc_exact(NULL, vs * (size_t)N + 8); int16_t* db = mc_exact(NULL, 2 * (size_t)N + 2);
+            int64_t row = 0, vpos = 0; bool ok = true; char why[160] = "";
+            if (hist == 1) { int64_t k = N > 1500 ? 1500 : N / 2; int64_t sk = carquet_column_skip(cr, k); if (sk != k) { ok = false; snprintf(why, sizeof why, "skip(%lld) returned %lld", (long long)k, (long long)sk); } for (int64_t r = 0; r < k; r++) if (def[r]) vpos++; row = k; }
+            while (ok && row < N) { int64_t want = hist == 2 ? 1000 : N - row; if (want > N - row) want = N - row; int64_t got = carquet_column_read_batch(cr, vb, want, db, NULL);
+                if (got != want) { ok = false; snprintf(why, sizeof why, "read_batch(%lld) at row %lld returned %lld", (long long)want, (long long)row, (long long)got); break; }
+                int64_t nn = 0; for (int64_t r = 0; r < got && ok; r++) { int dd = kc->opt ? db[r] : 1; if (dd != def[row + r]) { ok = false; snprintf(why, sizeof why, "definition level of row %lld is %d, written %d", (long long)(row + r), dd, def[row + r]); } if (dd) nn++; }
+                if (ok) { if (kc->ptype == PT_BYTE_ARRAY) { const carquet_byte_array_t* ba = (const carquet_byte_array_t*)vb; for (int64_t k = 0; ok && k < nn; k++) if ((uint32_t)ba[k].length != strs[vpos + k].n || memcmp(ba[k].data, strs[vpos + k].p, strs[vpos + k].n)) { ok = false; snprintf(why, sizeof why, "value #%lld differs", (long long)(vpos + k)); } }
+                    else if (memcmp(vb, fixed + (size_t)vpos * (size_t)w, (size_t)nn * (size_t)w)) { ok = false; int64_t k = 0; while (k < nn && !memcmp(vb + k * w, fixed + (size_t)(vpos + k) * (size_t)w, (size_t)w)) k++; snprintf(why, sizeof why, "value #%lld differs (%s, written %s)", (long long)(vpos + k), mc_hex(vb + k * w, (size_t)w, 8), mc_hex(fixed + (size_t)(vpos + k) * (size_t)w, (size_t)w, 8)); } }
+                vpos += nn; row += got; }
+            if (!ok) { char key[96]; snprintf(key, sizeof key, "big.readback.%s.%s", hist == 0 ? "one-read" : hist == 1 ? "skip-then-read" : "reads-of-1000", kc->opt ? "nullable" : "required"); mc_fail(key, "%s mode %d: %s", big_desc(b), mode, why); }
+            free(vb); free(db); carquet_column_reader_free(cr); carquet_reader_close(rd);
+        }
+        unlink(path);
+    }
+    free(img);
+out:
+    carquet_schema_free(sch); free(def); free(fixed); free(strs); free(pool);
+}
+
 #define NEXT(h, key, nt) (mc_next() ? (mc_desc("rt:%s", tbl_desc(h)), mc_case_key(key), ((nt) ? mc_nontrivial() : (void)0), true) : false)
 static bool nontrivial(const hist_t* h) {
     for (int c = 0; c < h->ncols; c++) { if (h->cols[c].opt && (h->mask[c] & ((1ull << h->N) - 1))) return true; for (int g = 0; g < h->nrg; g++) if (tbl_batches(h, g, c) > 1) return true; }
@@ -253,6 +323,31 @@ static void enumerate(void) {
         h.page_sel = 2;
         if (!NEXT(&h, hkey(&h, 7), true)) continue;
         run_case(&h, false); ref_arena_free(&RA);
+    }
+    mc_stage("long-columns.representation-boundaries");
+    {   static const int NS[] = { 63, 64, 65, 1023, 1024, 1025, 8191, 8192, 8193, 16384, 16385, 70000 };
+        static const int KK[] = { 1, 7, 0, 5, 3, 13, 11 };      /* i32?, i64?, i32, str?, bool?, flba1?, double? */
+        static const int CDX[] = { 0, 1, 5, 6 };
+        for (int ni = 0; ni < 12; ni++) for (int ki = 0; ki < 7; ki++) for (int mk = 0; mk < 8; mk++) for (int ci = 0; ci < 4; ci++) for (int bt = 0; bt < 2; bt++) for (int pat = 0; pat < 4; pat++) {
+            big_t b = { NS[ni], KK[ki], mk, CDX[ci], bt, 2, pat };
+            if (!TBL_KINDS[b.kind].opt && mk) continue;
+            if (ki >= 2 && !(mk == 0 || mk == 6)) continue;                       /* the full mask alphabet on the two integer columns only */
+            if (ci && !(pat == 1 || pat == 2) && !(ki < 2 && mk == 6)) continue;    /* codecs: on the patterns made for them */
+            if (!ci && pat && pat != 3 && ki >= 2) continue;
+            if (b.N == 70000 && !(mk == 0 || mk == 6) ) continue;
+            if (bt == 1 && b.N < 8191) continue;
+            if (!mc_next()) continue;
+            mc_desc("rt:%s", big_desc(&b)); mc_case_key(mc_hash(big_desc(&b), strlen(big_desc(&b)), 0xb16)); mc_nontrivial(); mc_budget_ms(20000);
+            big_case(&b);
+        }
+        /* many small pages consumed by one read (more than 64 page buffers alive), and one very large page (level block > 64 KiB) */
+        for (int ki = 0; ki < 7; ki++) for (int v = 0; v < 3; v++) {
+            big_t b = { v == 0 ? 600 : v == 1 ? 1600 : 400000, KK[ki], TBL_KINDS[KK[ki]].opt ? 6 : 0, v == 2 ? (ki & 1) : 0, v == 2 ? 0 : 2, v == 2 ? 2 : 0, 0 };
+            if (v == 2 && !(ki < 2 || KK[ki] == 5)) continue; if (v == 2 && !mc_thorough() && ki > 1) continue;
+            if (!mc_next()) continue;
+            mc_desc("rt:%s", big_desc(&b)); mc_case_key(mc_hash(big_desc(&b), strlen(big_desc(&b)), 0xb17)); mc_nontrivial(); mc_budget_ms(60000);
+            big_case(&b);
+        }
     }
 }
 int main(int argc, char** argv) { return mc_main(argc, argv, "rt", enumerate); }
